@@ -477,13 +477,19 @@ func (s *stdioTransport) processMessage(ctx context.Context, line string, writer
 	var rawMessage json.RawMessage
 	if err := json.Unmarshal([]byte(line), &rawMessage); err != nil {
 		s.logger.Errorf("Invalid JSON received: %v", err)
-		return nil
+		// JSON-RPC 2.0: unparsable input is answered with a Parse error (the id cannot be known).
+		return s.writeResponse(newJSONRPCErrorResponse(nil, ErrCodeParse, "Parse error", nil), writer)
 	}
 
 	msgType, err := parseJSONRPCMessageType(rawMessage)
 	if err != nil {
 		s.logger.Errorf("Error parsing message type: %v", err)
-		return nil
+		// JSON-RPC 2.0: a JSON value that is not a valid message is answered with Invalid Request.
+		var idHolder struct {
+			ID interface{} `json:"id"`
+		}
+		_ = json.Unmarshal(rawMessage, &idHolder)
+		return s.writeResponse(newJSONRPCErrorResponse(idHolder.ID, ErrCodeInvalidRequest, "Invalid Request", nil), writer)
 	}
 
 	sessionCtx := setSessionToContext(ctx, s.session)
